@@ -2,10 +2,12 @@ use crate::common::{Tier, Violation};
 use serde_json::Value;
 
 pub mod c06;
+pub mod c17;
 
 pub fn run(id: &str, tier: Tier) -> i32 {
     match id {
         "C06" => c06::run(tier),
+        "C17" => c17::run(tier),
         _ => {
             eprintln!("unknown property {id}");
             2
@@ -18,6 +20,7 @@ pub fn replay(id: &str, v: &Value) -> i32 {
     let case = &v["case"];
     let f: fn(&Value) -> Option<Violation> = match id {
         "C06" => c06::replay_case,
+        "C17" => c17::replay_case,
         _ => {
             eprintln!("unknown property {id}");
             return 2;
